@@ -19,11 +19,9 @@ def python_evaluate(s: str) -> int:
             return val
         else:
             raise NotAnIntegerException(s)
+    except NotAnIntegerException:
+        raise
     except SyntaxError as ex:
         raise NotAnIntegerException(s, ex.msg)
-    except ValueError as ex:
-        raise NotAnIntegerException(s, str(ex))
-    except TypeError as ex:
-        raise NotAnIntegerException(s, str(ex))
-    except NameError as ex:
+    except Exception as ex:
         raise NotAnIntegerException(s, str(ex))
